@@ -19,12 +19,13 @@ _RealBytesIO = io.BytesIO
 
 class Field:
     """one primitive read of the real parser"""
-    __slots__ = ("off", "size", "got", "label", "kind", "value")
+    __slots__ = ("off", "size", "got", "label", "kind", "value", "fmt")
 
     def __init__(self, off, size, got, label):
         self.off, self.size, self.got, self.label = off, size, got, label
-        self.kind = "data"      # "num" | "len" | "sig" | "data"
+        self.kind = "data"      # "num" | "len" | "sig" | "fmt" | "data"
         self.value = None
+        self.fmt = None         # the struct format the bytes were unpacked with (read_fmt), when known
 
     def __repr__(self):
         return f"Field({self.off},{self.size},{self.label},{self.kind},{self.value})"
@@ -38,6 +39,7 @@ class _Trace:
         self.keep = []
         self.unmapped = 0
         self.on = True
+        self.last = None        # (id of the bytes last returned by read, its Field)
 
 
 _cur: _Trace | None = None
@@ -85,10 +87,52 @@ class _TBytesIO(_RealBytesIO):
             n = len(r)
         fld = Field(self._base + pos, n, len(r), _label())
         t.fields.append(fld)
+        t.last = (id(r), fld, r)
         if len(r) >= 4:
             t.bases[id(r)] = self._base + pos
             t.keep.append(r)
         return r
+
+
+_real_unpack = struct.unpack
+
+
+def _t_unpack(fmt, data, *a):
+    """`struct.unpack` as called by `read_fmt` right after `fp.read`: remember the format of that read"""
+    t = _cur
+    if t is not None and t.on and t.last is not None and t.last[0] == id(data) and isinstance(fmt, str):
+        t.last[1].fmt = fmt
+    return _real_unpack(fmt, data, *a)
+
+
+_ITEM = {"b": 1, "B": 1, "h": 2, "H": 2, "i": 4, "I": 4, "l": 4, "L": 4, "q": 8, "Q": 8, "f": 4, "d": 8, "?": 1, "c": 1}
+
+
+def split_fmt(f: Field):
+    """a composite `read_fmt` read ("4iH", "hI", "4sH6xHIIHH", ...) -> one Field per item"""
+    import re as _re
+    fmt = f.fmt.lstrip("<>!=@")
+    out, off = [], f.off
+    for cnt, code in _re.findall(r"(\d*)([a-zA-Z?])", fmt):
+        k = int(cnt) if cnt else 1
+        if code in ("s", "p"):
+            g = Field(off, k, k, f.label)
+            out.append(g)
+            off += k
+        elif code == "x":
+            off += k
+        elif code in _ITEM:
+            for _ in range(k):
+                g = Field(off, _ITEM[code], _ITEM[code], f.label)
+                if code in ("f", "d"):
+                    g.fmt = "float"
+                out.append(g)
+                off += _ITEM[code]
+        else:
+            return [f]
+    if off != f.off + f.size:
+        return [f]
+    return out
 
 
 class StructMap:
@@ -98,15 +142,17 @@ class StructMap:
         self.data = data
         self.unmapped = unmapped
         fs = []
-        # is_readable() probes: a read immediately re-read at the same offset; keep the later one only
         for k, f in enumerate(fields):
             if f.got == 0 and f.size == 0:
                 continue
-            fs.append(f)
+            if f.fmt and f.fmt != "float" and f.got == f.size and f.size not in (1, 2, 4, 8):
+                fs.extend(split_fmt(f))        # every item of a composite read_fmt is a field of its own
+            else:
+                fs.append(f)
         n = len(data)
         for k, f in enumerate(fs):
             raw = data[f.off:f.off + f.got]
-            if f.got == f.size and f.size in (1, 2, 4, 8) and f.off + f.size <= n:
+            if f.got == f.size and f.size in (1, 2, 4, 8) and f.off + f.size <= n and f.fmt != "float":
                 f.value = int.from_bytes(raw, "big")
                 f.kind = "num"
                 if f.size == 4 and raw in (b"8BIM", b"8B64", b"8BPS", b"MeSa", b"AgHg", b"PHUT", b"DCSR"):
@@ -155,6 +201,7 @@ def trace_parse(data: bytes):
     t = _Trace(data)
     _cur = t
     io.BytesIO = _TBytesIO
+    struct.unpack = _t_unpack
     try:
         try:
             with warnings.catch_warnings():
@@ -168,6 +215,7 @@ def trace_parse(data: bytes):
             res = ("err", core.err_class(e), None)
     finally:
         io.BytesIO = _RealBytesIO
+        struct.unpack = _real_unpack
         _cur = None
     return res, StructMap(data, t.fields, t.unmapped)
 
@@ -324,6 +372,34 @@ def gen_mutants(rng, sm: StructMap, donors: list, n: int, skeleton_bias=0.7, wit
             s, e, lab = rng.choice(sm.blocks)
             emit([["rep", s, e, ""]], {"op": "del", "at": s, "end": e, "label": lab})
     return out
+
+
+def exhaustive_len_mutants(sm: StructMap, hows=("+1", "-1", "+2", "-2", "x2", "max")):
+    """every length / count / numeric field of 2, 4 or 8 bytes read by a skeleton class x the given variants"""
+    out = []
+    for f in sm.nums:
+        if f.label not in SKELETON or f.size < 2:
+            continue
+        for nm, v in num_variants(f):
+            if nm in hows:
+                ed, rec = _num_edit(f, nm, v)
+                rec["op"] = "len-all"
+                rec["edits"] = [ed]
+                out.append((None, rec))
+    return out
+
+
+def boundary_truncations(sm: StructMap, skeleton_only=True):
+    """truncation at the start and at the end of every length-prefixed block"""
+    cuts = set()
+    for s_, e_, lab in sm.blocks:
+        if skeleton_only and lab not in SKELETON:
+            continue
+        cuts.add(s_)
+        cuts.add(e_)
+    n = len(sm.data) if sm.data is not None else None
+    return [(None, {"op": "trunc-all", "at": c, "label": "boundary", "edits": [["cut", c]]})
+            for c in sorted(cuts) if n is None or c < n]
 
 
 # ---------------------------------------------------------------------------------------------
